@@ -142,7 +142,8 @@ class RealSim(simrun.Sim):
             env["VERIF_FAULTS"] = ",".join(faults)
         env.update(self.extra_env)
         k = req.get('k', 1)
-        cmd = [self.ninja, "-j", str(req.get('j', 1)), "-k", str(k if k > 0 else 0)] + self.extra_args + list(req['targets'])
+        jflag = [] if getattr(self, 'omit_j', False) else ["-j", str(req.get('j', 1))]    # an explicit -j disables the jobserver client
+        cmd = [self.ninja] + jflag + ["-k", str(k if k > 0 else 0)] + self.extra_args + list(req['targets'])
         time.sleep(GAP)
         p = subprocess.run(cmd, cwd=self.dir, env=env, capture_output=True, timeout=120)
         out = (p.stdout + p.stderr).decode("utf-8", "replace")
